@@ -62,6 +62,7 @@ def run(run):
                     cases.append({"backup": backup, "bootstrap": bootstrap, "kind": "gated-iterating",
                                   "workers": [{"pages": [1, 0], "gate": {"line": k}}, {"pages": [0, 1, 4], "iterate": True}]})
     res = lib.run_impl("c20", [dict(c, _timeout=200) for c in cases], shards=max(2, lib.NCPU // 4))
+    model_tie(run, cases, res)
     for c, r in zip(cases, res):
         run.count(c, len(c["workers"]) >= 2, "%s:backup=%s" % (c["kind"], c["backup"]))
         cfg = "backup" if c["backup"] else "no-backup"
@@ -95,6 +96,48 @@ def run(run):
         if r["after"] != r["before"]:
             run.property_failure("c20:%s:%s:pages-disturbed" % (c["kind"], cfg),
                                  "stored pages changed: before %d rows, after %s" % (len(r["before"]), json.dumps(r["after"])[:200]), c)
+
+
+def model_tie(run, cases, res):
+    """Model/Workers.v against the gated runs: worker 0 paused somewhere in its start-up while worker 1 runs to completion is, in
+    the model, the schedule 0^a 1^6 0^6 for some a; what really happened (which worker went wrong, what the database holds
+    afterwards) must be the outcome of one of these schedules."""
+    from lib import cbool
+    coq_cases, refs = [], []
+    for c, r in zip(cases, res):
+        if c["kind"] != "gated" or r.get("outcome") != "ok" or len(r.get("results", [])) != 2:
+            continue
+        bad = [bool(wr.get("error")) or wr.get("outs") != wr.get("want") for wr in r["results"]]
+        after, before = r.get("after"), r.get("before")
+        if after == before:
+            dbc = 0                     # what readers are meant to see (the backup's content when there is a backup)
+        elif isinstance(after, list) and after and not (isinstance(after[0], str) and after[0].startswith("unreadable")):
+            dbc = 1                     # other content (the version written after the backup)
+        else:
+            dbc = 2                     # empty or gone
+        coq_cases.append("(%s, (%s, %s, %d%%nat))" % (cbool(c["backup"]), cbool(bad[0]), cbool(bad[1]), dbc))
+        refs.append((c, bad, dbc))
+    defs = ("Definition wbad (w : worker) : bool := failed w || match sees w with Some 0 => true | _ => false end.\n"
+            "Definition outcome (backup : bool) (a : nat) : bool * bool * nat :=\n"
+            "  let init := if backup then mksh (Holds 2) (Holds 1) true else mksh (Holds 1) Missing true in\n"
+            "  let '(sh, ws) := run_schedule init [start_worker; start_worker] (repeat 0 a ++ repeat 1 6 ++ repeat 0 6)%nat in\n"
+            "  (existsb wbad (firstn 1 ws), existsb wbad (skipn 1 ws), match dbf sh with Holds 1 => 0 | Holds 2 => 1 | _ => 2 end)%nat.\n"
+            "Definition o_eqb (x y : bool * bool * nat) : bool := let '(a, b, c) := x in let '(d, e, f) := y in "
+            "Bool.eqb a d && Bool.eqb b e && Nat.eqb c f.\n"
+            "Definition possible (backup : bool) (o : bool * bool * nat) : bool := existsb (fun a => o_eqb (outcome backup a) o) (seq 0 7).\n")
+    badi, errs = lib.coq_eval_failing("c20m", ["Model.Workers"], "bool * (bool * bool * nat)", coq_cases,
+                                      "fun '(b, o) => possible b o", chunk=400, extra_defs=defs)
+    for e in errs:
+        run.correspondence_break("model evaluation failed (worker schedules)", None, error=e)
+    for b in badi:
+        c, bad, dbc = refs[b]
+        run.correspondence_break("Model.Workers has no single-preemption schedule with this outcome: workers gone wrong %r, database "
+                                 "afterwards %s" % (bad, ["as readers should see it", "other content", "empty or gone"][dbc]), c)
+    dist = {}
+    for c, bad, dbc in refs:
+        key = "backup=%s:%s:%d" % (c["backup"], "".join("x" if x else "." for x in bad), dbc)
+        dist[key] = dist.get(key, 0) + 1
+    run.extra["gated_outcomes_checked_against_the_model"] = dist
 
 
 def replay(data):
